@@ -304,6 +304,109 @@ Theorem C03_rebuild_exact_multi_unrepaired_refuted :
 Proof. vm_compute. repeat split. Qed.
 Print Assumptions C03_rebuild_exact_multi_unrepaired_refuted.
 
+(* ====================================================================== a step that FAILS once
+   Graph/StampFail.v: the walk semantics of StampSem with recipes as LISTS of command lines (RcStep the step's own
+   command, RcTouch  touch $@ , RcNoop  : ) and an oracle fl choosing, per run, the steps whose own command fails.
+   Assumption about the tool, explicit in the model (apply_cmd): a step's command either writes all its outputs and
+   succeeds, or writes nothing and fails.  GNU Make 4.3 without -k (validated, harness/c03.py R:stampsem): the lines
+   of a recipe run in order, the first failing line ends the recipe, the target is not deleted, NOTHING further is
+   built in this run (not even goals independent of the failed step), what was built before stays.
+   d_log = the steps whose own command ran and succeeded; d_fail = make stopped with an error.
+
+   Guards as in C03_rebuild_exact_multi (well-formed script incl. multi-output steps through the repaired stamp rule,
+   fresh build directory, inputs exist, goals = all outputs in script order, any lag), recipes = cmds_of false = the
+   emitted ones (C03_recipes_emitted: command first, touch $@ last).  b1 = complete build; then ANY file x is touched
+   (source or intermediate; one file, as in C03_rebuild_exact_multi); b2 = a build in which the steps chosen by ANY
+   oracle fl fail; b3 = a build in which nothing fails; b4 = one more.  With L = the steps downstream of x in the
+   script's own dependency relation, in script order (step_target = what the log records for a step):
+     b2 runs exactly the steps of L before the first one that fails (take_ok) and stops with an error iff some step
+        of L fails (a failing step that is not downstream of x is never run and does no harm);
+     b3 runs exactly the rest of L, from that first failing step on (drop_ok: the failed step itself and every step
+        of L after it in script order - in a well-formed script the consumers of a step come after it), no error;
+     so over b2 and b3 every step downstream of x ran successfully exactly once, in script order, and nothing else ran;
+     b4 runs nothing. *)
+From BFG Require Import Graph.StampFail Graph.StampFailProofs.
+
+Theorem C03_failed_step_recovers : forall lag steps f clk x (fl : file -> bool),
+  wf_script_multi steps -> fs_below f clk ->
+  let rs := xsem_steps true lag steps in
+  let goals := script_goals steps in
+  let cm := cmds_of false in
+  clean_for rs f -> inputs_exist rs f ->
+  let b1 := fmake cm nofail rs goals f clk in
+  let L := map step_target (script_down_steps x steps) in
+  let b2 := fmake cm fl rs goals (upd (d_fs b1) (encF x) (d_clk b1)) (d_clk b1 + 1) in
+  let b3 := fmake cm nofail rs goals (d_fs b2) (d_clk b2) in
+  let b4 := fmake cm nofail rs goals (d_fs b3) (d_clk b3) in
+  d_fail b1 = false /\ d_log b1 = map step_target steps /\
+  d_log b2 = take_ok fl L /\ d_fail b2 = existsb fl L /\
+  d_log b3 = drop_ok fl L /\ d_fail b3 = false /\
+  d_log b2 ++ d_log b3 = L /\
+  d_log b4 = [] /\ d_fail b4 = false.
+Proof. exact failed_step_recovers. Qed.
+Print Assumptions C03_failed_step_recovers.
+
+(* what b3 runs (drop_ok fl L) contains every failing step F of L and every step after F in L, i.e. in script order -
+   where all steps downstream of F are (a consumer comes after its producer: ordered) *)
+Theorem C03_failed_step_rest : forall (fl : file -> bool) a F r,
+  fl F = true -> forall t, In t (F :: r) -> In t (drop_ok fl (a ++ F :: r)).
+Proof. exact drop_ok_from. Qed.
+Print Assumptions C03_failed_step_rest.
+
+(* without failures, and with the emitted recipes, the semantics with failing recipes IS StampSem.dmake: the theorems
+   above about dmake speak about the same builds *)
+Theorem C03_fail_semantics_conservative : forall lag steps goals f clk,
+  wf_script_multi steps ->
+  fmake (cmds_of false) nofail (xsem_steps true lag steps) goals f clk = dmake (xsem_steps true lag steps) goals f clk.
+Proof. exact fail_semantics_conservative. Qed.
+Print Assumptions C03_fail_semantics_conservative.
+
+(* the recipes the semantics runs (cmds_of tb, per rule of the walk) are the recipe lists of the emitter model
+   (Emit.emit_make_recipes tb, one per registered rule, tied to the real Rule objects by W:emit with tb = false:
+   the position of  touch $@  relative to the command lines), for EVERY step *)
+Theorem C03_recipes_emitted : forall tb fx lag st rs cs,
+  emit_make_step fx st = Some rs -> emit_make_recipes tb fx st = Some cs ->
+  length cs = length rs /\ map (cmds_of tb) (xsem_rules lag rs) = rule_cmds rs cs.
+Proof. exact recipes_emitted. Qed.
+Print Assumptions C03_recipes_emitted.
+
+(* the recipe order  touch $@  FIRST (emit_make_recipes true: [touch; command]) is refuted: on ex_multi_steps, after a
+   complete build the input is touched and the 2-output step (stamp 41) fails once: the touch had already made the stamp
+   newer than the input, so the next build - nothing fails any more - runs NOTHING and reports success, although the
+   step never succeeded after the change and everything downstream of it (80, 84) is stale.  With the emitted order
+   (command first) the same history re-runs all three steps. *)
+Theorem C03_touch_before_command_refuted :
+  let rs := xsem_steps true 1 ex_multi_steps in
+  let goals := script_goals ex_multi_steps in
+  let hist := fun tb =>
+    let b1 := fmake (cmds_of tb) nofail rs goals (fs_of [(4, 5)]) 10 in
+    let b2 := fmake (cmds_of tb) (fun t => t =? 41) rs goals (upd (d_fs b1) (encF 1) (d_clk b1)) (d_clk b1 + 1) in
+    let b3 := fmake (cmds_of tb) nofail rs goals (d_fs b2) (d_clk b2) in
+    (d_log b1, (d_log b2, d_fail b2), (d_log b3, d_fail b3)) in
+  emit_make_recipes true true (mkStep KBuildStep [mkOut 10 0; mkOut 11 0] None None None [] [] [] [1] [] [] [] false false) =
+    Some [[RcNoop]; [RcTouch; RcStep]] /\
+  map step_target (script_down_steps 1 ex_multi_steps) = [41; 80; 84] /\
+  hist true = ([41; 80; 84], ([], true), ([], false)) /\
+  hist false = ([41; 80; 84], ([], true), ([41; 80; 84], false)).
+Proof. vm_compute. repeat split. Qed.
+Print Assumptions C03_touch_before_command_refuted.
+
+(* ---- non-vacuity of C03_failed_step_recovers: its hypotheses hold of ex_multi_steps (ex_multi_wf); the oracle fails
+   the copy step 80 in the middle of L = [41; 80; 84]: b2 runs 41 and stops, b3 runs 80 and 84 *)
+Example ex_fail_nonvacuous :
+  let rs := xsem_steps true 1 ex_multi_steps in
+  let goals := script_goals ex_multi_steps in
+  let fl := fun t => t =? 80 in
+  let b1 := fmake (cmds_of false) nofail rs goals (fs_of [(4, 5)]) 10 in
+  let b2 := fmake (cmds_of false) fl rs goals (upd (d_fs b1) (encF 1) (d_clk b1)) (d_clk b1 + 1) in
+  let b3 := fmake (cmds_of false) nofail rs goals (d_fs b2) (d_clk b2) in
+  take_ok fl [41; 80; 84] = [41] /\ drop_ok fl [41; 80; 84] = [80; 84] /\
+  d_log b2 = [41] /\ d_fail b2 = true /\ d_log b3 = [80; 84] /\ d_fail b3 = false /\
+  emit_make_recipes false true (mkStep KBuildStep [mkOut 10 0; mkOut 11 0] None None None [] [] [] [1] [] [] [] false false) =
+    Some [[RcNoop]; [RcStep; RcTouch]] /\
+  map (cmds_of false) rs = [[RcNoop]; [RcNoop]; [RcStep; RcTouch]; [RcStep]; [RcStep]].
+Proof. vm_compute. repeat split. Qed.
+
 (* ---- glue C03 <- C05: the one-producer-per-file hypotheses are what the emitters' duplicate check enforces ----
    emit_paths (Path/Within.v) is the model of the duplicate detection of Makefile.rule / NinjaFile.build tied under
    C05.  Whenever it accepts the output lists of the steps - under any naming esc of the files, injective or not -
